@@ -140,6 +140,15 @@ def property_oracle(case, out):
     return None
 
 
+def boundary_space(case) -> bool:
+    """the text is held in two chained text nodes and a space sits at their boundary"""
+    text = " ".join(case["words"])
+    if not (case.get("chained") and len(text) > 2):
+        return False
+    k = len(text) // 2
+    return text[k - 1] == " " or text[k] == " "
+
+
 def is_known(case) -> str | None:
     for f in common.known_findings("C19"):
         if f.get("status") != "open":
@@ -147,6 +156,8 @@ def is_known(case) -> str | None:
         if f["key"] == "perfect-fit-unindented":
             if len(esc(" ".join(case["words"]))) == case["w"] and case["indent"] != "":
                 return f["key"]
+        if f["key"] == "chained-text-space-at-boundary" and boundary_space(case):
+            return f["key"]
     return None
 
 
